@@ -3,7 +3,7 @@
    real linker computed; each checker recomputes with the model (or evaluates
    the ECMA-262 specification side) and returns the indices of the cases that
    disagree. *)
-From V Require Import Common.Base C02.Graph C02.Order C02.SpecESM C02.Wrap C02.Resolve C02.DataUrl C02.SpecDataUrl C02.Emit C02.ResolveSpec.
+From V Require Import Common.Base C02.Graph C02.Order C02.SpecESM C02.Wrap C02.Resolve C02.DataUrl C02.SpecDataUrl C02.Emit C02.ResolveSpec C02.EvalOrder.
 
 Fixpoint mism_from {A} (f : A -> bool) (l : list A) (i : nat) : list nat :=
   match l with
@@ -269,3 +269,19 @@ Definition toesm_ok (c : bool * bool * bool) : bool :=
   let '(typed, dynamic, has1) := c in
   Bool.eqb (to_esm_node_mode typed (if dynamic then IFDynamic else IFStatement true)) has1.
 Definition check_toesm := mismatches toesm_ok.
+
+(* ---- evaluation order of mixed graphs: the probe logs of the native run and of the bundle ---- *)
+Definition EM (esm silent : bool) (static requires dyn : list Z) (wrapped : bool) : emod :=
+  mkEmod esm silent (map zn static) (map zn requires) (map zn dyn) wrapped.
+Definition ev_code (e : eevent) : Z * Z := match e with EvStart m => (0, Z.of_nat m) | EvEnd m => (1, Z.of_nat m) end.
+Definition trace_eqb (a : option (list eevent)) (b : list (Z * Z)) : bool :=
+  match a with
+  | Some l => list_eqb (fun x y => (fst x =? fst y) && (snd x =? snd y)) (map ev_code l) b
+  | None => false
+  end.
+(* (graph with the real wrap kinds, entry, start/end events of the native run, of the bundle) *)
+Definition evalorder_ok (c : egraph * Z * list (Z * Z) * list (Z * Z)) : bool :=
+  let '(g, entry, nat_obs, bun_obs) := c in
+  trace_eqb (native_trace g (zn entry)) nat_obs && trace_eqb (bundle_trace g (zn entry)) bun_obs
+  && wrap_consistent g.
+Definition check_evalorder := mismatches evalorder_ok.
